@@ -247,6 +247,9 @@ func (mv mapValue) PropertyValue(iv Value) Value {
 }
 
 func (sv stringValue) Contains(substr Value) bool {
+	if substr.Interface() == nil {
+		return false // nil is not a piece of text (fmt would spell it "<nil>")
+	}
 	s, ok := substr.Interface().(string)
 	if !ok {
 		s = fmt.Sprint(substr.Interface())
